@@ -382,7 +382,7 @@ func (r *runner) evaluate(pl *plan, o outcome) {
 				break
 			}
 			if site == "streamdict" && len(e.Stages) > 1 {
-				t.Violate(fmt.Sprintf("limit=MaxDecodeBytes/site=streamdict/pipeline=%s/stage=%d/class=stage-unbounded", e.Pipe, e.Stage),
+				t.Violate(fmt.Sprintf("limit=MaxDecodeBytes/site=streamdict/stages=%d/stage=%d/class=stage-unbounded", len(e.Stages), e.Stage),
 					fmt.Sprintf("stage %d of %s produces %d bytes (all stages %v), MaxDecodeBytes is %d, and decoding succeeded: the stage is not bounded by the configured limit",
 						e.Stage, e.Pipe, e.Stages[e.Stage], e.Stages, e.LimitV), r.replayCase(c, &o, "accepted"))
 				break
